@@ -143,3 +143,38 @@ pub(crate) const fn lt_bits(a: u64, b: u64) -> bool {
 pub(crate) const fn eq_bits(a: u64, b: u64) -> bool {
     !is_nan_bits(a) && !is_nan_bits(b) && order_key(a) == order_key(b)
 }
+
+/// ECMAScript ToUint8Clamp on a double bit pattern: clamp to [0,255], round half to even.
+pub(crate) const fn to_uint8_clamp(bits: u64) -> u8 {
+    if is_nan_bits(bits) {
+        return 0;
+    }
+    if (bits >> 63) == 1 || is_zero_bits(bits) {
+        return 0; // negative (incl. -inf, -0) or zero
+    }
+    let d = match decode(bits) {
+        None => return 255, // +inf
+        Some(d) => d,
+    };
+    if d.e >= 0 {
+        return 255; // >= 2^52
+    }
+    let s = (-d.e) as u32;
+    if s >= 64 {
+        return 0; // < 2^-11
+    }
+    let f = d.m >> s;
+    if f >= 255 {
+        return 255;
+    }
+    let frac = d.m & ((1u64 << s) - 1);
+    let half = 1u64 << (s - 1);
+    let f = f as u8;
+    if frac > half {
+        f + 1
+    } else if frac < half {
+        f
+    } else {
+        f + (f & 1)
+    }
+}
